@@ -328,6 +328,9 @@ class DictReader:
                     while global_key := dict_in.find_global_key(query=placeholder):
                         # Substitute the placeholder in the dict with the result of the evaluated expression
                         dict_in.set_global_key(global_key, value=eval_result)
+                        if placeholder in str(eval_result):
+                            # the inserted value itself spells the placeholder: searching again would find it for ever
+                            break
                     del dict_in.expressions[key]
                 else:
                     # update the item in dict.expressions with the (at least partly) resolved expression
@@ -369,6 +372,10 @@ class DictReader:
             while global_key := dict_in.find_global_key(query=placeholder):
                 # Substitute the placeholder with the original (or at least partly resolved) expression
                 dict_in.set_global_key(global_key, value=cast("V", expression))
+                if placeholder in expression:
+                    # the expression itself spells the placeholder (a reference named like it, e.g. $EXPRESSION000000):
+                    # searching again would find the text just inserted, for ever
+                    break
         dict_in.expressions.clear()
 
         return
